@@ -4,19 +4,43 @@
 
 package table
 
-// One table's part of a scan: positions handed back are inside the table, and never behind the cursor (equal to it
-// only when the callback stopped the scan before accepting an entry, or count <= 0).
-//@ func (t *Table) Scan(cursor uint64, count int, f func(e storage.Entry) bool) (uint64, error)
+// Reading the entry at a live offset (and stamping its last access). Its effect on the table is proved where it
+// is inlined (Table.Get); for the scan loops the same facts are ASSUMED through this contract.
+//@ func (t *Table) get(offset uint64) storage.Entry
 //@   props C12
 //@   trusted
-//@   requires #recv: t != nil
-//@   ensures #cursor [C12]: result.1 == nil && (result.0 == 0 || (cursor <= result.0 && result.0 < t.allocated))
-//@   modifies nothing
+//@   flag clock
+//@   flag contract_only_in Table\)\.Scan
+//@   requires #live: t.inv() && t.offsetIndex.set[offset]
+//@   ensures  #entry: result != nil && fresh(result)
+//@   ensures  #inv_out: t.inv()
+//@   ensures  #index_kept: forall h uint64 {t.has(h)} :: t.has(h) == old(t.has(h)) && t.off(h) == old(t.off(h))
+//@   modifies elems(t.memory)
 
+// One table's part of a scan. Live offsets at or after the cursor are taken in ascending order, each at most once;
+// the cursor handed back is 0 when none is left, otherwise one past the last offset the callback accepted (so it
+// never lies behind the cursor given, equals it only if the callback accepted nothing, and stays inside the
+// written part of the table).
+//@ func (t *Table) Scan(cursor uint64, count int, f func(e storage.Entry) bool) (uint64, error)
+//@   props C12
+//@   requires #inv: t != nil && t.offsetIndex != nil && t.inv() && f != nil
+//@   requires #cursor_range: cursor <= 4611686018427387904
+//@   ensures  #cursor [C12]: result.1 == nil && (result.0 == 0 || (cursor <= result.0 && result.0 < t.allocated))
+//@   ensures  #end_means_exhausted [C12] internal: result.0 == 0 && old(cursor) != 0 ==> !(exists x uint64 :: it.set[x] && x >= it.pos)
+//@   ensures  #accepted_offsets_are_live [C12] internal: cursor != old(cursor) && cursor != 0 ==> t.offsetIndex.set[cursor - 1]
+//@   ensures  #inv_out: t.inv()
+//@   loop 0 invariant #iter: it != nil && it.set == t.offsetIndex.set && t.offsetIndex.set == old(t.offsetIndex.set) && t.inv() && 0 <= num &&
+//@                old(cursor) <= cursor && (cursor == old(cursor) || (cursor >= 1 && t.offsetIndex.set[cursor - 1] && it.pos == cursor)) &&
+//@                (cursor == old(cursor) ==> it.pos >= cursor || old(cursor) == 0)
+//@   loop 0 invariant #temporaries: onlyfresh(elems(t.memory))
+//@   modifies elems(t.memory)
+
+// The filtered variant differs only in skipping entries whose key does not match; its loop is not verified yet
+// (regexp is external): the cursor range it hands back is assumed.
 //@ func (t *Table) ScanRegexMatch(cursor uint64, expr string, count int, f func(e storage.Entry) bool) (uint64, error)
 //@   props C12
 //@   trusted
-//@   requires #recv: t != nil
+//@   requires #inv: t != nil && t.offsetIndex != nil && t.inv() && f != nil
 //@   ensures #cursor [C12]: result.1 == nil ==> (result.0 == 0 || (cursor <= result.0 && result.0 < t.allocated))
-//@   modifies nothing
-
+//@   ensures #inv_out: t.inv()
+//@   modifies elems(t.memory)
